@@ -353,24 +353,26 @@ class NetworkGraph(AbstractBaseIR):
         return means, stds, nodes, add_delay
 
     def _collect_from_edges(self, edges: list, keys: list):
+        # edges are merged per source *variable*: two variables of the same source node are different inputs
         data = dict()
         for source, target, idx in edges:
             edge = self.edges[(source, target, idx)]
-            if source not in data:
-                data[source] = dict()
+            source_key = (source, edge.get('source_var'))
+            if source_key not in data:
+                data[source_key] = dict()
             for key in keys:
                 raw = edge.get(key)
                 val = raw if isinstance(raw, (np.ndarray, EdgeIR)) else deepcopy(raw)
                 try:
-                    data[source][key].extend(val)
+                    data[source_key][key].extend(val)
                 except AttributeError:
-                    field = data[source][key]
+                    field = data[source_key][key]
                     if type(field) is str or field is None:
                         pass
                     else:
-                        data[source][key] = [field, val]
+                        data[source_key][key] = [field, val]
                 except KeyError:
-                    data[source][key] = val
+                    data[source_key][key] = val
         return data
 
     def _add_matrix_delay(self, node: str, op: str, var: str, edge: tuple,
@@ -711,7 +713,7 @@ class NetworkGraph(AbstractBaseIR):
         # step 1: collect all inputs
         weights, source_indices, target_indices, sources = [], [], [], []
         edge_irs, edge_var_maps = [], []
-        for snode, sinfo in inputs.items():
+        for (snode, _), sinfo in inputs.items():
             weights.append(sinfo['weight'])
             source_indices.append(sinfo['source_idx'])
             target_indices.append(sinfo['target_idx'])
